@@ -1,12 +1,5 @@
-# Per-property claims; tools/mkmanifest.py turns this into MANIFEST.json.
+# Shared tables for tools/mkmanifest.py; per-property claims live in tools/claims.d/CNN.json.
 HOOK_COMMITS = []
 
-CLAIMS = {
- "C24": {
-  "technique": "property-based testing (rapid) against a reference model of the selection rule",
-  "text": "Generated endpoint lists and queries are judged by a reference written from the property statement (match set, maximum level, error iff empty); exploration of a large generated sample, not a proof.",
-  "note": "Trusts the reference's policy-name normalisation table (written independently of ua.SecurityPolicyURIs) and rapid's generators; lists up to 14 endpoints.",
- },
-}
-
+# properties deliberately not claimed, with the reason (others default to "not built yet")
 NOT_APPLICABLE = {}
